@@ -1086,7 +1086,12 @@ class Engine(object):
             ex.top_fq = fq
             outcome = None
             try:
-                env = self.make_params(ex, fref, contract,
+                c_eff = contract
+                if isinstance(split_expr, dict) and split_expr.get("param_types"):
+                    # this case of the split fixes the SHAPE of a parameter (a list of k elements ...)
+                    c_eff = dict(contract)
+                    c_eff["params"] = dict(contract.get("params") or {}, **split_expr["param_types"])
+                env = self.make_params(ex, fref, c_eff,
                                        bind=split_expr.get("bind") if isinstance(split_expr, dict) else None)
                 if isinstance(split_expr, dict):
                     split_expr_s = split_expr.get("assume")
